@@ -367,13 +367,10 @@ def hist_entropy(cnts, n):
 
 
 def pd_from_counts(nx, ny, nxy, n):
+    """VIn, MIn from the table counts exactly as partition_distance computes them (guards n > 1 and Hx + Hy > 0)"""
     Hx, Hy, Hxy = hist_entropy(nx, n), hist_entropy(ny, n), hist_entropy(nxy, n)
-    ln = math.log(n)
-    num = 2 * Hxy - Hx - Hy
-    vin = float('nan') if ln == 0 else num / ln
-    den = Hx + Hy
-    mi = 2 * (Hx + Hy - Hxy)
-    mn = float('nan') if den == 0 else mi / den
+    vin = (2 * Hxy - Hx - Hy) / math.log(n) if n > 1 else 0.0
+    mn = 2 * (Hx + Hy - Hxy) / (Hx + Hy) if Hx + Hy > 0 else 1.0
     return vin, mn
 
 
